@@ -115,7 +115,7 @@ def _case(i):
     info = {'program': text, 'stdin': stdin, 'source': name, 'features': sorted(feat),
             'reference': {'end': rend, 'stdout': C.clip(ro, 300), 'stderr': C.clip(re_, 300)}, 'prestop': [k, cause]}
     try:
-        base = P.run_interp(C.HYEONG, path, 0, sb)
+        base = P.run_interp(C.HYEONG, path, 0, sb, hint=(re_, rend))
         if base.kind in ('wall', 'cpu', 'crash', 'noheader', 'other'):
             res['items'].append(('i', 'unoptimised interpreter run unusable (%s) %s' % (base.kind, res['key'])))
             res['status'] = 'inconclusive'
@@ -146,7 +146,7 @@ def _case(i):
             obs = K.run_exe(what, sb)
             if obs.kind == 'cpu':
                 obs = K.run_exe(what, sb, cpu=30)
-            d = K.compare_compiled(base, obs)
+            d = K.compare_compiled(base, obs, re_)
             if d is None:
                 continue
             if d.startswith('INCONCLUSIVE'):
